@@ -23,7 +23,7 @@ RULE = (
     "instance; non-trivial = tree with >= 3 nodes; distinct = distinct tree fingerprints"
 )
 ASSUMPTIONS = ["all nodes of a tree are registered (handles are held) and no object occurs twice, as the statement requires"]
-MUST_SEE = ["both_foreign_keyerrors", "twin_pairs_in_tree", "foreign_twins", "non_ancestor_pairs", "index_ge_10", "root_relative_valueerror", "keyerrors", "subtree_trees", "exact_tuple_hits"]
+MUST_SEE = ["absolute_after_relative", "both_foreign_keyerrors", "twin_pairs_in_tree", "foreign_twins", "non_ancestor_pairs", "index_ge_10", "root_relative_valueerror", "keyerrors", "subtree_trees", "exact_tuple_hits"]
 CONFIG = {
     "quick": {"shards": 16, "trees": 400, "max_nodes": 28, "watchdog_s": 300},
     "thorough": {"shards": 32, "trees": 600, "max_nodes": 45, "watchdog_s": 3000},
@@ -209,6 +209,20 @@ def run_shard(ctx):
                     ctx.count("root_relative_valueerror")
             if r != exp_r:
                 bad("relative_depth", "relative get_depth wrong", node=i, relative_to=j, got=r, exp=exp_r)
+        # query order: a fresh Tree whose first queries are relative ones, then absolute ones (and the first Tree again)
+        t3 = Tree(root)
+        for i, j in rng.sample(pairs, min(len(pairs), 200)):
+            try:
+                t3.get_depth(nodes[i], relative_to=nodes[j])
+            except ValueError:
+                pass
+        for k, p in enumerate(pos):
+            ctx.evaluations += 1
+            ctx.count("absolute_after_relative")
+            g3, g1 = t3.get_depth(nodes[k]), t.get_depth(nodes[k])
+            if g3 != p.depth or g1 != p.depth:
+                bad("get_depth", "absolute depth asked after relative depths differs", node=k, got=(g3, g1), exp=p.depth)
+                break
         # a second Tree over a sub-tree of the same objects (queried before or after the whole tree):
         # its answers are relative to its own root and must not be influenced by the other Tree
         inner = [k for k, p in enumerate(pos) if p.parent is not None and any(q.parent is p for q in pos)]
